@@ -12,6 +12,80 @@ COMMON_ASSUME = [
 ]
 
 REGISTRY = {
+    "C17": {
+        "level": "exploration",
+        "technique": "documentation-derived compatibility table as oracle over the complete carrier x column-type matrix; snapshot/compare rollback monitor with an independent [value] parser",
+        "rule": "matrix: every catalogue carrier (123 Rust types) x every column type (20 natives; list/set/vector/tuple/UDT over each native; map/tuple/udt over native pairs; every container shape over the 180 one-level types: 3860 types), both directions (SerializeValue::serialize, SerializedValues::add_value on top of bound values; DeserializeValue::type_check, one-column row type check, TypedRowIterator::new); "
+                "oracle verdict MUST_ACCEPT / MUST_REJECT / EITHER from the docs; non-trivial = verdict asserted (not EITHER); distinct = distinct (direction, carrier, type). "
+                "rollback: seeded value lists of 0-9 values, 15 failure kinds at every prefix, the 65536th value, oversize cells (thorough), through add_value / from_serializable / from_closure / RowWriter",
+        "assumptions": COMMON_ASSUME + ["wire-compatible extras on which the documentation is silent are listed as EITHER and only counted, not asserted"],
+        "quick": [{"variant": "dbg"}],
+        "thorough": [{"variant": "dbg"}, {"variant": "rel", "args": {"oversize": "0"}}],
+        "level_text": "The complete carrier x column-type matrix is evaluated in both directions against a table written from the documentation (exhaustive over the bounded matrix); a rejected value must leave no bytes behind; after every failed add the bound values are compared byte-for-byte and count-for-count with a snapshot taken before, and element_count is cross-checked with an independent parser of the encoded cells.",
+        "level_note": "trusted: refmodel/typecompat.rs (docs-derived table, self-tested against the docs' headline list); exhaustive refers to the matrix part, the rollback part is sampled",
+        "design_ref": "DESIGN.md §4 C17",
+    },
+    "C02": {
+        "level": "exploration",
+        "technique": "model-based walks of the real handler map (hook) + end-to-end history checker over mock-node/client event logs, adversarial response order, cancellation, seeded pause points",
+        "rule": "part a: random and structured operation walks (allocate/orphan/lookup/into_handlers) over the real ResponseHandlerMap compared step by step with a reference state machine, invariant walker on the live structure; "
+                "part b: histories = (n concurrent requests on ONE pool connection, response order class, cancellation plan per request, withheld answers of abandoned requests, second wave of requests, write-coalescing mode, prepared/unprepared) "
+                "against a mock node that echoes the id of each request; one evaluation = one client operation; non-trivial = every operation of a history with >= 2 concurrent requests; distinct = distinct (history seed, operation id, cancelled)",
+        "assumptions": COMMON_ASSUME + ["thread/task interleavings are sampled (not enumerated); what was seen is reported as cancellation-stage and order classes"],
+        "quick": [{"variant": "dbg", "part": "b"}],
+        "thorough": [{"variant": "dbg", "part": "b"}],
+        "level_text": "Every successful result is checked to carry the id of its own request with an intact payload and to have been really sent by the node before it was delivered; the node flags any request arriving on a stream id it still owes an answer on (abandoned requests included); histories include more concurrent requests than stream ids. Interleavings are sampled: held on what was observed.",
+        "level_note": "trusted: mock node + independent wire codec; cancellation stages are classified from the event log only; pause points (hook) only perturb timing",
+        "design_ref": "DESIGN.md §4 C02",
+    },
+    "C04": {
+        "level": "exploration",
+        "technique": "reference-model monitor (independent SimpleStrategy/NTS walker) + metamorphic relations over generated rings, on the real ClusterState/ReplicaLocator built through a hook",
+        "rule": "cases = (ring topology, replication strategy, token, datacenter restriction, pre-computed or not); rings of up to 12 nodes x 3 DCs x 4 racks incl. rack-less / DC-less nodes, vnodes, extreme and duplicate tokens; per ring every DC x RF 0..nodes+2; "
+                "tokens = ring tokens, +-1, extremes, midpoints; non-trivial = non-empty ring; distinct = distinct (ring, strategy, token, dc, path)",
+        "assumptions": COMMON_ASSUME,
+        "quick": [{"variant": "dbg", "scale": 0.25}],
+        "thorough": [{"variant": "dbg", "scale": 1.0}],
+        "level_text": "Every generated (ring, strategy, token) is answered by the real ReplicaLocator and compared with a 30-line model of the servers' placement rule, plus the statement's internal relations (pre-computed == on-the-fly, DC filter, len == iteration == ordered view, choose_filtered membership, ring order). Sampled inputs, exhaustive RF range per ring.",
+        "level_note": "trusted: refmodel/replication.rs; ClusterState is built by the real ClusterState::new through the ClusterProbe hook (nodes disabled by a host filter)",
+        "design_ref": "DESIGN.md §4 C04",
+    },
+    "C09": {
+        "level": "exploration",
+        "technique": "independent protocol parser reads back every frame the driver builds; field-by-field and byte-for-byte comparison with a spec encoder",
+        "rule": "cases = request descriptions (QUERY, EXECUTE incl. result-metadata id, BATCH, PREPARE, STARTUP, REGISTER, OPTIONS, AUTH_RESPONSE) framed uncompressed / LZ4 / Snappy with and without tracing; all 64 subsets of optional fields x 4 entry points enumerated, "
+                "boundary cases at the 16/32-bit limits (65535/65536 values, ids, statements, strings), random cases beyond; non-trivial = every case but OPTIONS; distinct = distinct (kind, spec body)",
+        "assumptions": COMMON_ASSUME,
+        "quick": [{"variant": "dbg", "part": "a"}],
+        "thorough": [{"variant": "dbg", "part": "a", "timeout_t": 5400}, {"variant": "rel", "part": "a", "args": {"big": "0"}}],
+        "level_text": "Each frame built through the public request API is parsed by an independent CQL v4 codec and must equal the request description (header, flags, length, every body field, values in order) and the spec encoding byte for byte; compressed bodies must decompress to the uncompressed serialization; unrepresentable inputs must be refused. Thorough adds the >4 GiB and 2 GiB-statement cases in child processes.",
+        "level_note": "trusted: harness/src/wire (spec codec, self-tested), lz4_flex/snap for the compression primitive; oversize cases are skipped as inconclusive when memory is short",
+        "design_ref": "DESIGN.md §4 C09",
+    },
+    "C10": {
+        "level": "fault_enumeration",
+        "technique": "fault injection at every byte offset of the response stream by a mock node + history checker (completion, no foreign/partial bytes, recovery) with a quiescence-based hang rule",
+        "rule": "cases = (fault kind, requests in flight, responses attempted, cut offset): every byte offset of response streams of 1..3 (quick) / 1..5 (thorough) frames with FIN and RST, plus garbage, wrong direction/version, unknown opcode, unsolicited stream id, huge length then silence, silent stall with keep-alives, kill during request writes, and the benign negative-stream case; "
+                "non-trivial = every case; distinct = distinct (fault, in-flight, responses, offset, prepared, idempotent)",
+        "assumptions": COMMON_ASSUME + ["a caller that has not returned 10 s after the fault is a hang only if, for 4 further seconds, no event touches its connection or its request id (otherwise inconclusive)"],
+        "quick": [{"variant": "dbg"}],
+        "thorough": [{"variant": "dbg", "timeout_t": 5400}],
+        "level_text": "For every cut offset and corruption kind the check observes that every request in flight completes, that a success carries exactly the complete response the node wrote for that request, that nobody is handed foreign or partial bytes, and that the session serves new requests afterwards. Bounded-progress restatement of 'no caller waits forever'.",
+        "level_note": "trusted: mock node; RST may discard bytes already written, so a complete send never obliges a success; real time is used only for pacing and the watchdog",
+        "design_ref": "DESIGN.md §4 C10",
+    },
+    "C16": {
+        "level": "exploration",
+        "technique": "table-driven interpreter of the documented derive-attribute semantics as reference model; exhaustive enumeration of database-side field lists for a fixed struct family",
+        "rule": "cases = (struct of a 53-struct family covering flavor/rename/skip/flatten/default_when_null/allow_missing/forbid_excess_udt_fields/skip_name_checks, UDT or row, database-side list of (name,type), operation, null pattern, truncation): "
+                "per struct every subset of fields missing x extra fields x all permutations (<= 6 entries quick, 7 thorough), all null patterns, every truncation length of UDT values, random values; non-trivial = anything but empty struct vs empty list; distinct = distinct (struct, target, list, op, truncation)",
+        "assumptions": COMMON_ASSUME + ["combinations the documentation does not decide are not asserted (N1 allow_missing on SerializeValue, N2 repeated names, N3 enforce_order+allow_missing field listed later): only 'no panic' is checked there"],
+        "quick": [{"variant": "dbg"}],
+        "thorough": [{"variant": "dbg"}],
+        "level_text": "The real derive macros (rebuilt from /repo) are run on every database-side ordering / subset / null pattern of a bounded struct family and compared with the documented semantics: accept/reject, emitted bytes at the database's positions, produced fields, value -> bytes -> value identity. Exhaustive over the bounded family.",
+        "level_note": "trusted: refmodel/derive.rs (documented semantics, quoted in its header) and its hand-written cell codec",
+        "design_ref": "DESIGN.md §4 C16",
+    },
     "C11": {
         "level": "exploration",
         "technique": "reference-model monitor over generated inputs (debug overflow traps as extra oracle)",
